@@ -374,3 +374,226 @@ Proof.
     rewrite sumZ_app, <- Hsum, <- sumZ_rev.
     apply (Hsem2 s Hs2). now apply Forall2_rev.
 Qed.
+
+(** ** [log2_up_nat] *)
+
+Lemma log2_up_nat_spec fuel : forall n p,
+  (n <= 2 ^ (p + fuel))%nat ->
+  let r := log2_up_nat fuel n p in
+  (n <= 2 ^ r /\ p <= r /\ (r = p \/ 2 ^ (r - 1) < n))%nat.
+Proof.
+  induction fuel as [|f IH]; intros n p H; cbn [log2_up_nat].
+  - rewrite Nat.add_0_r in H. lia.
+  - destruct (Nat.leb n (2 ^ p)) eqn:E.
+    + apply Nat.leb_le in E. lia.
+    + apply Nat.leb_gt in E.
+      destruct (IH n (S p)) as (H1 & H2 & H3).
+      { replace (S p + f)%nat with (p + S f)%nat by lia. exact H. }
+      split; [assumption|]. split; [lia|]. right. destruct H3 as [H3|H3]; [|assumption].
+      rewrite H3. replace (S p - 1)%nat with p by lia. exact E.
+Qed.
+
+Definition clog2 (n : nat) : nat := log2_up_nat n n 0.
+
+Lemma clog2_spec n :
+  (n <= 2 ^ clog2 n /\ (clog2 n = 0 \/ 2 ^ (clog2 n - 1) < n))%nat.
+Proof.
+  unfold clog2. destruct (log2_up_nat_spec n n 0) as (H1 & _ & H3).
+  - cbn [Nat.add]. apply Nat.lt_le_incl. apply Nat.pow_gt_lin_r. lia.
+  - split; assumption.
+Qed.
+
+Lemma clog2_lt n : (clog2 n <= n)%nat.
+Proof.
+  destruct (clog2_spec n) as [_ [H|H]]; [lia|].
+  pose proof (Nat.pow_gt_lin_r 2 (clog2 n - 1) ltac:(lia)). lia.
+Qed.
+
+(** ** [pop_count] *)
+
+Definition pop_count_post (n : Z) (vs : list Z) (sa : nat)
+  (o : option (list Z)) (n' : Z) (new : cnf) : Prop :=
+  exists out, o = Some out /\ length out = wd sa (clog2 (length vs)) /\
+    Forall (inr n') out /\
+    forall s, sat s new = true -> msbv (lits s out) = satv sa (count s vs).
+
+Lemma Rep_single sa s x : Rep sa 0 s [x] (Z.b2z (lit_true s x)).
+Proof.
+  split.
+  - cbn [lits map]. rewrite msbv_cons, msbv_nil. cbn [length].
+    change (Z.of_nat 0) with 0. rewrite Z.pow_0_r.
+    rewrite satv_small; [lia|destruct (lit_true s x); cbn; lia|].
+    intros Hsa. assert (0 < 2 ^ (Z.of_nat sa - 1)) by (apply Z.pow_pos_nonneg; lia).
+    destruct (lit_true s x); cbn [Z.b2z]; lia.
+  - change (Z.of_nat 0) with 0. rewrite Z.pow_0_r. destruct (lit_true s x); cbn; lia.
+Qed.
+
+Lemma Rep_singles sa s ls :
+  Forall2 (Rep sa 0 s) (map (fun x => [x]) ls) (map (fun x => Z.b2z (lit_true s x)) ls).
+Proof.
+  induction ls as [|x ls IH]; cbn [map]; constructor; [apply Rep_single|assumption].
+Qed.
+
+Lemma sumZ_count s ls : sumZ (map (fun x => Z.b2z (lit_true s x)) ls) = count s ls.
+Proof.
+  induction ls as [|x ls IH]; [reflexivity|].
+  cbn [map]. rewrite sumZ_cons, count_cons, IH. reflexivity.
+Qed.
+
+Lemma wd_0 sa : wd sa 0 = 1%nat.
+Proof. destruct sa as [|m]; cbn [wd]; lia. Qed.
+
+Lemma pop_count_unfold vs sa :
+  vs <> [] ->
+  pop_count vs sa
+  = (aux <- nfresh (2 ^ clog2 (length vs) - length vs) ;;
+     zero_out aux ;;;
+     pop_layer (S (length vs)) (map (fun x => [x]) (vs ++ aux)) sa).
+Proof. destruct vs; [congruence|reflexivity]. Qed.
+
+Lemma pop_count_spec n vs sa :
+  0 <= n -> vs <> [] -> Forall (inr n) vs ->
+  Spec (pop_count vs sa) n (pop_count_post n vs sa).
+Proof.
+  intros Hn Hne Hvs. rewrite pop_count_unfold by assumption.
+  set (p := clog2 (length vs)). set (k := (2 ^ p - length vs)%nat).
+  destruct (clog2_spec (length vs)) as [Hp1 Hp2]. fold p in Hp1, Hp2.
+  pose proof (clog2_lt (length vs)) as Hp3. fold p in Hp3.
+  destruct (zero_cls_defines n k Hn) as [e0 D0].
+  eapply (spec_prefix _ (pop_layer (S (length vs))
+            (map (fun x => [x]) (vs ++ zseq (n + 1) k)) sa) n (n + Z.of_nat k)
+            (zero_cls (zseq (n + 1) k)) e0).
+  { intros cs. unfold bind. rewrite nfresh_run. unfold zero_out. rewrite emit_run.
+    reflexivity. }
+  { exact D0. }
+  eapply spec_conseq.
+  { apply (pop_layer_spec sa p (S (length vs)) _ (n + Z.of_nat k) 0%nat); [lia|lia| |].
+    - rewrite map_length, app_length, zseq_length. unfold k. lia.
+    - apply Forall_forall. intros b Hb. apply in_map_iff in Hb. destruct Hb as (x & <- & Hx).
+      split; [now rewrite wd_0|]. constructor; [|constructor].
+      apply in_app_or in Hx. destruct Hx as [Hx|Hx].
+      + rewrite Forall_forall in Hvs. apply (inr_le n); [lia|]. now apply Hvs.
+      + apply zseq_In in Hx. unfold inr. lia. }
+  intros o n' new Hle (out & -> & Hlo & Hro & Hsem).
+  exists out. split; [reflexivity|]. cbn [Nat.add] in Hlo. split; [assumption|].
+  split; [assumption|].
+  intros s Hs. rewrite sat_app, andb_true_iff in Hs. destruct Hs as [Hs0 Hs1].
+  pose proof (Hsem s Hs1 _ (Rep_singles sa s _)) as [Hv _].
+  rewrite sumZ_count, count_app in Hv. rewrite Hv. f_equal.
+  rewrite (count_all_false s (zseq (n + 1) k)); [lia|].
+  apply zero_cls_sat in Hs0; [|apply zseq_pos; lia].
+  rewrite Forall_forall in Hs0. exact Hs0.
+Qed.
+
+(** * Explicit statements (used by [Properties/C12.v]) *)
+
+Lemma ripple_saturate_correct : forall n xs ys sa,
+  0 <= n -> length xs = length ys -> (0 < length xs <= sa)%nat ->
+  Forall (inr n) xs -> Forall (inr n) ys ->
+  exists out n' new ext,
+    (forall cs, ripple_saturate xs ys sa {| next := n; cls := cs |}
+                = (Some out, {| next := n'; cls := cs ++ new |})) /\
+    Defines n n' new ext /\
+    Forall (fresh_in n n') out /\
+    if (length xs <? sa)%nat then
+      length out = S (length xs) /\
+      forall s, sat s new = true ->
+        msbv (lits s out) = msbv (lits s xs) + msbv (lits s ys)
+    else
+      length out = length xs /\
+      forall s, sat s new = true ->
+        let low := msbv (lits s (tl xs)) + msbv (lits s (tl ys)) in
+        let M := 2 ^ (Z.of_nat (length xs) - 1) in
+        msbv (lits s (tl out)) = low mod M /\
+        lit_true s (hd 0 out)
+        = lit_true s (hd 0 xs) || lit_true s (hd 0 ys) || (M <=? low).
+Proof.
+  intros n xs ys sa Hn Hl Hw Hx Hy.
+  destruct (ripple_saturate_spec n xs ys sa Hn Hl Hw Hx Hy)
+    as (o & n' & new & ext & R & D & out & -> & Hfr & Hcase).
+  exists out, n', new, ext. split; [exact R|]. split; [exact D|]. split; [exact Hfr|].
+  destruct (length xs <? sa)%nat; [exact Hcase|].
+  destruct Hcase as [Hlo Hsem]. split; [exact Hlo|].
+  intros s Hs low M. destruct (Hsem s Hs) as (cr & H1 & H2). fold low in H1. fold M in H1.
+  pose proof (msbv_bounds (lits s (tl out))) as B. rewrite lits_length in B.
+  assert (Hlt : length (tl out) = (length xs - 1)%nat).
+  { destruct out; cbn [tl length] in *; lia. }
+  rewrite Hlt in B. replace (Z.of_nat (length xs - 1)) with (Z.of_nat (length xs) - 1) in B by lia.
+  fold M in B. rewrite H2.
+  destruct cr; cbn [Z.b2z] in H1.
+  - replace low with (msbv (lits s (tl out)) + 1 * M) by lia.
+    rewrite Z_mod_plus_full, Z.mod_small by lia. split; [reflexivity|].
+    f_equal. symmetry. apply Z.leb_le. lia.
+  - replace low with (msbv (lits s (tl out))) by lia.
+    rewrite Z.mod_small by lia. split; [reflexivity|].
+    f_equal. symmetry. apply Z.leb_gt. lia.
+Qed.
+
+Lemma satv_exact sa p N :
+  0 <= N <= 2 ^ Z.of_nat p -> (sa = 0 \/ wd sa p < sa)%nat -> satv sa N = N.
+Proof.
+  intros HN Hc. apply satv_small; [lia|]. intros Hsa.
+  destruct sa as [|m]; [congruence|]. destruct Hc as [Hc|Hc]; [discriminate|].
+  cbn [wd] in Hc. pose proof (pow2_le_mono p m ltac:(lia)).
+  replace (Z.of_nat (S m) - 1) with (Z.of_nat m) by lia. lia.
+Qed.
+
+Lemma satv_split sa (bits : list bool) N :
+  0 <= N -> sa <> O -> length bits = sa -> msbv bits = satv sa N ->
+  msbv (tl bits) = N mod 2 ^ (Z.of_nat sa - 1) /\
+  hd false bits = (2 ^ (Z.of_nat sa - 1) <=? N).
+Proof.
+  intros HN Hsa Hl Hv. destruct sa as [|m]; [congruence|].
+  replace (Z.of_nat (S m) - 1) with (Z.of_nat m) by lia.
+  destruct bits as [|t r]; [discriminate|]. cbn [length hd tl] in *.
+  rewrite msbv_cons in Hv. cbn [satv] in Hv.
+  assert (Hr : length r = m) by lia. rewrite Hr in Hv.
+  pose proof (msbv_bounds r) as B. rewrite Hr in B.
+  pose proof (pow2_pos m) as HM.
+  pose proof (Z.mod_pos_bound N (2 ^ Z.of_nat m) HM) as BN.
+  destruct (decomp_unique (2 ^ Z.of_nat m) (msbv r) (Z.b2z t)
+              (N mod 2 ^ Z.of_nat m) (if 2 ^ Z.of_nat m <=? N then 1 else 0)) as [E1 E2];
+    try assumption.
+  { destruct (2 ^ Z.of_nat m <=? N); lia. }
+  split; [exact E1|]. destruct (2 ^ Z.of_nat m <=? N), t; cbn [Z.b2z] in E2; try reflexivity; lia.
+Qed.
+
+Lemma pop_count_correct : forall n vs sa,
+  0 <= n -> vs <> [] -> Forall (inr n) vs ->
+  exists out n' new ext,
+    (forall cs, pop_count vs sa {| next := n; cls := cs |}
+                = (Some out, {| next := n'; cls := cs ++ new |})) /\
+    Defines n n' new ext /\
+    let p := clog2 (length vs) in
+    (length vs <= 2 ^ p /\ (p = 0 \/ 2 ^ (p - 1) < length vs))%nat /\
+    length out = wd sa p /\ Forall (inr n') out /\
+    forall s, sat s new = true ->
+      let N := count s vs in
+      msbv (lits s out) = satv sa N /\
+      ((sa = 0 \/ length out < sa)%nat -> msbv (lits s out) = N) /\
+      (length out = sa ->
+         msbv (lits s (tl out)) = N mod 2 ^ (Z.of_nat sa - 1) /\
+         lit_true s (hd 0 out) = (2 ^ (Z.of_nat sa - 1) <=? N)).
+Proof.
+  intros n vs sa Hn Hne Hvs.
+  destruct (pop_count_spec n vs sa Hn Hne Hvs)
+    as (o & n' & new & ext & R & D & out & -> & Hlo & Hro & Hsem).
+  exists out, n', new, ext. split; [exact R|]. split; [exact D|].
+  intros p. pose proof (clog2_spec (length vs)) as Hp. fold p in Hp.
+  split; [exact Hp|]. split; [exact Hlo|]. split; [exact Hro|].
+  intros s Hs N. specialize (Hsem s Hs). fold N in Hsem.
+  pose proof (count_bounds s vs) as HN. fold N in HN.
+  assert (HN2 : 0 <= N <= 2 ^ Z.of_nat p).
+  { split; [lia|]. destruct Hp as [Hp _].
+    apply Nat2Z.inj_le in Hp. rewrite Nat2Z.inj_pow in Hp. cbn in Hp. lia. }
+  split; [exact Hsem|]. split.
+  - intros Hc. rewrite Hsem. apply (satv_exact sa p); [assumption|]. fold p in Hlo. lia.
+  - intros Hw.
+    assert (Hsa : sa <> O).
+    { intros ->. fold p in Hlo. rewrite Hlo in Hw. cbn [wd] in Hw. lia. }
+    destruct (satv_split sa (lits s out) N) as [E1 E2]; try assumption; try lia.
+    { now rewrite lits_length. }
+    split.
+    + destruct out; exact E1.
+    + rewrite <- E2. destruct out; [cbn [length] in Hw; lia|reflexivity].
+Qed.
